@@ -1369,13 +1369,185 @@ def renumber(tree):
     block(tree.body, 0)
 
 
+# ---------------------------------------------------------------------------------------------
+# M: module-level constants (a name bound once, at module level, to a string / number, or to a
+# concatenation / product of such) are written out where they are used
+# ---------------------------------------------------------------------------------------------
+def _const_fold(e, env):
+    if isinstance(e, ast.Constant) and isinstance(e.value, (str, int, float)) \
+            and not isinstance(e.value, bool):
+        return e.value
+    if isinstance(e, ast.Name) and e.id in env:
+        return env[e.id]
+    if isinstance(e, ast.BinOp) and isinstance(e.op, ast.Add):
+        a, b = _const_fold(e.left, env), _const_fold(e.right, env)
+        if isinstance(a, str) and isinstance(b, str):
+            return a + b
+    if isinstance(e, ast.JoinedStr) and all(isinstance(v, ast.Constant) for v in e.values):
+        return "".join(v.value for v in e.values)
+    return None
+
+
+def module_constants(tree):
+    stores = {}
+    for n in ast.walk(tree):
+        if isinstance(n, ast.Name) and isinstance(n.ctx, (ast.Store, ast.Del)):
+            stores[n.id] = stores.get(n.id, 0) + 1
+        elif isinstance(n, (ast.Global, ast.Nonlocal)):
+            for g in n.names:
+                stores[g] = stores.get(g, 0) + 2
+        elif isinstance(n, (ast.FunctionDef, ast.ClassDef, ast.AsyncFunctionDef)):
+            stores[n.name] = stores.get(n.name, 0) + 2
+        elif isinstance(n, ast.arg):
+            stores[n.arg] = stores.get(n.arg, 0) + 2
+        elif isinstance(n, ast.alias):
+            nm = (n.asname or n.name).split(".")[0]
+            stores[nm] = stores.get(nm, 0) + 2
+    env = {}
+    for st in tree.body:
+        if isinstance(st, ast.Assign) and len(st.targets) == 1 \
+                and isinstance(st.targets[0], ast.Name) and stores.get(st.targets[0].id) == 1:
+            nm = st.targets[0].id
+            if not (nm.startswith("_") or nm.isupper()):
+                continue
+            v = _const_fold(st.value, env)
+            if isinstance(v, str):
+                env[nm] = v
+    if not env:
+        return tree
+
+    class R(ast.NodeTransformer):
+        def visit_Name(self, n):
+            if isinstance(n.ctx, ast.Load) and n.id in env:
+                return ast.copy_location(ast.Constant(value=env[n.id]), n)
+            return n
+    return R().visit(tree)
+
+
+# ---------------------------------------------------------------------------------------------
+# R: records -- a local that only ever holds a namedtuple built on the spot and is only read
+# field by field is replaced by one local per field
+# ---------------------------------------------------------------------------------------------
+def _namedtuple_classes(tree):
+    out = {}
+    for st in tree.body:
+        if isinstance(st, ast.Assign) and len(st.targets) == 1 \
+                and isinstance(st.targets[0], ast.Name) and isinstance(st.value, ast.Call) \
+                and _unparse(st.value.func) in ("collections.namedtuple", "namedtuple") \
+                and len(st.value.args) >= 2 and not st.value.keywords:
+            f = st.value.args[1]
+            fields = None
+            if isinstance(f, (ast.List, ast.Tuple)) and all(
+                    isinstance(e, ast.Constant) and isinstance(e.value, str) for e in f.elts):
+                fields = [e.value for e in f.elts]
+            elif isinstance(f, ast.Constant) and isinstance(f.value, str):
+                fields = f.value.replace(",", " ").split()
+            if fields:
+                out[st.targets[0].id] = fields
+    return out
+
+
+def _record_values(call, fields):
+    if any(isinstance(a, ast.Starred) for a in call.args) or any(
+            k.arg is None for k in call.keywords) or len(call.args) > len(fields):
+        return None
+    vals = [(fields[i], a) for i, a in enumerate(call.args)]
+    seen = {f for f, _ in vals}
+    for k in call.keywords:
+        if k.arg not in fields or k.arg in seen:
+            return None
+        seen.add(k.arg)
+        vals.append((k.arg, k.value))
+    return vals if seen == set(fields) else None
+
+
+def split_records(fn, classes):
+    if not classes:
+        return
+    defs, other = {}, set()
+    parents = {}
+    for n in ast.walk(fn):
+        for ch in ast.iter_child_nodes(n):
+            parents[id(ch)] = n
+    for n in ast.walk(fn):
+        if isinstance(n, (ast.FunctionDef, ast.Lambda)) and n is not fn:
+            for x in ast.walk(n):
+                if isinstance(x, ast.Name):
+                    other.add(x.id)          # names seen by nested functions are left alone
+    for n in ast.walk(fn):
+        if not isinstance(n, ast.Name):
+            continue
+        par = parents.get(id(n))
+        if isinstance(n.ctx, ast.Store):
+            if isinstance(par, ast.Assign) and len(par.targets) == 1 and par.targets[0] is n \
+                    and isinstance(par.value, ast.Call) and isinstance(par.value.func, ast.Name) \
+                    and par.value.func.id in classes \
+                    and _record_values(par.value, classes[par.value.func.id]) is not None:
+                defs.setdefault(n.id, []).append(par)
+            else:
+                other.add(n.id)
+        elif isinstance(n.ctx, ast.Load):
+            if not (isinstance(par, ast.Attribute) and par.value is n
+                    and isinstance(par.ctx, ast.Load)):
+                other.add(n.id)
+        else:
+            other.add(n.id)
+    params = {a.arg for a in fn.args.args + fn.args.kwonlyargs}
+    for name, dl in defs.items():
+        if name in other or name in params:
+            continue
+        cls = {d.value.func.id for d in dl}
+        if len(cls) != 1:
+            continue
+        fields = classes[cls.pop()]
+        bad = False
+        for n in ast.walk(fn):
+            if isinstance(n, ast.Attribute) and isinstance(n.value, ast.Name) \
+                    and n.value.id == name and n.attr not in fields:
+                bad = True
+        if bad:
+            continue
+        repl = {id(d): [ast.copy_location(ast.Assign(
+            targets=[ast.Name(id=f"{name}__{f}", ctx=ast.Store())], value=v), d)
+            for f, v in _record_values(d.value, fields)] for d in dl}
+
+        def rewrite(block):
+            out = []
+            for st in block:
+                if id(st) in repl:
+                    out.extend(repl[id(st)])
+                    continue
+                for field in ("body", "orelse", "finalbody"):
+                    b = getattr(st, field, None)
+                    if isinstance(b, list) and b and isinstance(b[0], ast.stmt):
+                        setattr(st, field, rewrite(b))
+                for h in getattr(st, "handlers", []) or []:
+                    h.body = rewrite(h.body)
+                out.append(st)
+            return out
+        fn.body = rewrite(fn.body)
+
+        class A(ast.NodeTransformer):
+            def visit_Attribute(self, n):
+                if isinstance(n.value, ast.Name) and n.value.id == name:
+                    return ast.copy_location(ast.Name(id=f"{name}__{n.attr}", ctx=n.ctx), n)
+                return self.generic_visit(n)
+        A().visit(fn)
+        ast.fix_missing_locations(fn)
+
+
 def canonicalise(tree, sigs=None):
     for n in ast.walk(tree):
         if hasattr(n, "lineno"):
             n.__dict__["_src_line"] = n.lineno
+    tree = module_constants(tree)
     if sigs:
         tree = _KwToPos(sigs).visit(tree)
     _Inliner(tree).run()
+    classes = _namedtuple_classes(tree)
+    if classes:
+        for f in [n for n in ast.walk(tree) if isinstance(n, ast.FunctionDef)]:
+            split_records(f, classes)
     tree.body = simplify_block(tree.body)
     tree = _KeysNorm().visit(tree)
     tree.body = canon_block(tree.body)
